@@ -78,3 +78,12 @@ package interceptor
 //@   ensures result != nil && result.adminServiceAccess != nil && result.namespaceAccess != nil
 //@   ensures forall s string :: { s in result.adminServiceAccess.allowedMap } auth.allowedIn(result.adminServiceAccess, s) <==> (len(adminServiceAllowedMethods) == 0 || exists k int :: 0 <= k && k < len(adminServiceAllowedMethods) && adminServiceAllowedMethods[k] == s)
 //@   ensures forall s string :: { s in result.namespaceAccess.allowedMap } auth.allowedIn(result.namespaceAccess, s) <==> (len(allowedNamespaces) == 0 || exists k int :: 0 <= k && k < len(allowedNamespaces) && allowedNamespaces[k] == s)
+
+// ---------------------------------------------------------------------------------------------
+// C13: names are translated by exact-match lookup only.
+// ---------------------------------------------------------------------------------------------
+//@ contract createStringMatcher$1
+//@   props C13 C14
+//@   ensures result1 == (name in mapping)
+//@   ensures result1 ==> result0 == mapping[name]
+//@   assigns nothing
